@@ -49,6 +49,15 @@ pub struct Flags {
     pub abs_slack: Cell<i64>,
     /// number of operator applications (used for non-triviality counting)
     pub ops: Cell<usize>,
+    /// C15 scope: largest magnitude of any intermediate value, whether a negative zero / a non-finite value occurred,
+    /// whether an integer was raised to a negative integer power, whether an integer division was inexact
+    pub max_abs: Cell<f64>,
+    pub saw_negzero: Cell<bool>,
+    pub saw_nonfinite: Cell<bool>,
+    pub int_negpow: Cell<bool>,
+    pub inexact_div: Cell<bool>,
+    /// the evaluation only decides a scope predicate (C15): the guards that protect tolerance comparisons are off
+    pub scope_only: Cell<bool>,
 }
 impl Flags {
     pub fn inexact(&self, tol: f64) { if tol > self.tol.get() { self.tol.set(tol); } }
@@ -68,6 +77,8 @@ pub trait Sem {
     fn bin(&self, op: &str, a: Self::V, b: Self::V) -> R<Self::V>;
     fn sup(&self, base: Self::V, digits: &str) -> R<Self::V>;
     fn call(&self, func: &str, args: Vec<Self::V>) -> R<Self::V>;
+    /// every intermediate value of a tree evaluation passes through here (scope predicates of C15)
+    fn observe(&self, _v: &Self::V) {}
 }
 
 /// combine stops: an Err anywhere makes the whole evaluation Err (every subtree is evaluated,
@@ -82,6 +93,12 @@ fn merge(a: Option<Stop>, b: Stop) -> Option<Stop> {
 }
 
 pub fn eval<S: Sem>(s: &S, t: &T, a: &Asg) -> R<S::V> {
+    let r = eval_node(s, t, a);
+    if let Ok(v) = &r { s.observe(v); }
+    r
+}
+
+fn eval_node<S: Sem>(s: &S, t: &T, a: &Asg) -> R<S::V> {
     let un = |op: &str, x: &T| -> R<S::V> { let v = eval(s, x, a)?; s.flags().ops.set(s.flags().ops.get() + 1); s.un(op, v) };
     match t {
         T::Num(p) => { let (txt, im) = a.lits.get(p).expect("literal assignment"); s.lit(txt, *im) }
